@@ -167,120 +167,123 @@ func (l *lex) stripSpaces() {
 
 // nextToken consumes and returns the next token.
 func (l *lex) nextToken() Token {
-	l.stripSpaces()
-	pos := Position(l.pos)
-	if l.unindents > 0 {
-		l.unindents--
-		return Token{Type: Unindent, Pos: pos}
-	}
-	next := l.bytes[l.pos]
-	rawString := next == 'r' && (l.bytes[l.pos+1] == '"' || l.bytes[l.pos+1] == '\'')
-	fString := next == 'f' && (l.bytes[l.pos+1] == '"' || l.bytes[l.pos+1] == '\'')
-	if rawString || fString {
+	// This loops for as long as it is skipping things that are not tokens (blank lines, comments etc).
+	for {
+		l.stripSpaces()
+		pos := Position(l.pos)
+		if l.unindents > 0 {
+			l.unindents--
+			return Token{Type: Unindent, Pos: pos}
+		}
+		next := l.bytes[l.pos]
+		rawString := next == 'r' && (l.bytes[l.pos+1] == '"' || l.bytes[l.pos+1] == '\'')
+		fString := next == 'f' && (l.bytes[l.pos+1] == '"' || l.bytes[l.pos+1] == '\'')
+		if rawString || fString {
+			l.pos++
+			l.col++
+			next = l.bytes[l.pos]
+		} else if (next >= 'a' && next <= 'z') || (next >= 'A' && next <= 'Z') || next == '_' || next >= utf8.RuneSelf {
+			return l.consumeIdent(pos)
+		}
 		l.pos++
 		l.col++
-		next = l.bytes[l.pos]
-	} else if (next >= 'a' && next <= 'z') || (next >= 'A' && next <= 'Z') || next == '_' || next >= utf8.RuneSelf {
-		return l.consumeIdent(pos)
-	}
-	l.pos++
-	l.col++
-	switch next {
-	case 0:
-		// End of file (we null terminate it above so this is easy to spot)
-		return Token{Type: EOF, Pos: pos}
-	case '\r':
-		return l.nextToken()
-	case '\n':
-		// End of line, read indent to next non-space character
-		lastIndent := l.indent
-		l.line++
-		l.col = 0
-		indent := 0
-		for l.bytes[l.pos] == ' ' {
-			l.pos++
-			l.col++
-			indent++
-		}
-		if l.bytes[l.pos] == '\n' {
-			return l.nextToken()
-		}
-		if l.braces == 0 {
-			l.indent = indent
-		}
-		if lastIndent > l.indent && l.braces == 0 {
-			pos++ // Works better if it's at the new position
-			for l.indents[len(l.indents)-1] > l.indent {
-				l.unindents++
-				l.indents = l.indents[:len(l.indents)-1]
+		switch next {
+		case 0:
+			// End of file (we null terminate it above so this is easy to spot)
+			return Token{Type: EOF, Pos: pos}
+		case '\r':
+			continue
+		case '\n':
+			// End of line, read indent to next non-space character
+			lastIndent := l.indent
+			l.line++
+			l.col = 0
+			indent := 0
+			for l.bytes[l.pos] == ' ' {
+				l.pos++
+				l.col++
+				indent++
 			}
-			if l.indent != l.indents[len(l.indents)-1] {
-				l.fail(pos, "Unexpected indent")
+			if l.bytes[l.pos] == '\n' {
+				continue
 			}
-		} else if lastIndent != l.indent {
-			l.indents = append(l.indents, l.indent)
-		}
-		if l.braces == 0 && !l.lastEOL {
-			return Token{Type: EOL, Pos: pos}
-		}
-		return l.nextToken()
-	case '0':
-		if l.bytes[l.pos] == 'o' {
-			l.pos++
-			l.col++
+			if l.braces == 0 {
+				l.indent = indent
+			}
+			if lastIndent > l.indent && l.braces == 0 {
+				pos++ // Works better if it's at the new position
+				for l.indents[len(l.indents)-1] > l.indent {
+					l.unindents++
+					l.indents = l.indents[:len(l.indents)-1]
+				}
+				if l.indent != l.indents[len(l.indents)-1] {
+					l.fail(pos, "Unexpected indent")
+				}
+			} else if lastIndent != l.indent {
+				l.indents = append(l.indents, l.indent)
+			}
+			if l.braces == 0 && !l.lastEOL {
+				return Token{Type: EOL, Pos: pos}
+			}
+			continue
+		case '0':
+			if l.bytes[l.pos] == 'o' {
+				l.pos++
+				l.col++
+				return l.consumeInteger(next, pos)
+			}
+			fallthrough
+		case '1', '2', '3', '4', '5', '6', '7', '8', '9':
 			return l.consumeInteger(next, pos)
+		case '"', '\'':
+			// String literal, consume to end.
+			return l.consumePossiblyTripleQuotedString(next, pos, rawString, fString)
+		case '(', '[', '{':
+			l.braces++
+			return Token{Type: rune(next), Value: string(next), Pos: pos}
+		case ')', ']', '}':
+			if l.braces > 0 { // Don't let it go negative, it fouls things up
+				l.braces--
+			}
+			return Token{Type: rune(next), Value: string(next), Pos: pos}
+		case '=', '!', '+', '<', '>':
+			// Look ahead one byte to see if this is an augmented assignment or comparison.
+			if l.bytes[l.pos] == '=' {
+				l.pos++
+				l.col++
+				return Token{Type: LexOperator, Value: string([]byte{next, l.bytes[l.pos-1]}), Pos: pos}
+			}
+			fallthrough
+		case ',', '.', '%', '*', '|', '&', ':':
+			return Token{Type: rune(next), Value: string(next), Pos: pos}
+		case '/':
+			// Look ahead one byte to see if this is a floor division.
+			if l.bytes[l.pos] == '/' {
+				l.pos++
+				l.col++
+				return Token{Type: LexOperator, Value: string([]byte{next, l.bytes[l.pos-1]}), Pos: pos}
+			}
+			return Token{Type: rune(next), Value: string(next), Pos: pos}
+		case '#':
+			// Comment character, consume to end of line.
+			for l.bytes[l.pos] != '\n' && l.bytes[l.pos] != 0 {
+				l.pos++
+				l.col++
+			}
+			continue // Comments aren't tokens themselves.
+		case '-':
+			// We lex unary - with the integer if possible.
+			if l.bytes[l.pos] >= '0' && l.bytes[l.pos] <= '9' {
+				return l.consumeInteger(next, pos)
+			}
+			return Token{Type: rune(next), Value: string(next), Pos: pos}
+		case '\t':
+			l.fail(pos, "Tabs are not permitted in BUILD files, use space-based indentation instead")
+		default:
+			l.fail(pos, "Unknown symbol %c", next)
 		}
-		fallthrough
-	case '1', '2', '3', '4', '5', '6', '7', '8', '9':
-		return l.consumeInteger(next, pos)
-	case '"', '\'':
-		// String literal, consume to end.
-		return l.consumePossiblyTripleQuotedString(next, pos, rawString, fString)
-	case '(', '[', '{':
-		l.braces++
-		return Token{Type: rune(next), Value: string(next), Pos: pos}
-	case ')', ']', '}':
-		if l.braces > 0 { // Don't let it go negative, it fouls things up
-			l.braces--
-		}
-		return Token{Type: rune(next), Value: string(next), Pos: pos}
-	case '=', '!', '+', '<', '>':
-		// Look ahead one byte to see if this is an augmented assignment or comparison.
-		if l.bytes[l.pos] == '=' {
-			l.pos++
-			l.col++
-			return Token{Type: LexOperator, Value: string([]byte{next, l.bytes[l.pos-1]}), Pos: pos}
-		}
-		fallthrough
-	case ',', '.', '%', '*', '|', '&', ':':
-		return Token{Type: rune(next), Value: string(next), Pos: pos}
-	case '/':
-		// Look ahead one byte to see if this is a floor division.
-		if l.bytes[l.pos] == '/' {
-			l.pos++
-			l.col++
-			return Token{Type: LexOperator, Value: string([]byte{next, l.bytes[l.pos-1]}), Pos: pos}
-		}
-		return Token{Type: rune(next), Value: string(next), Pos: pos}
-	case '#':
-		// Comment character, consume to end of line.
-		for l.bytes[l.pos] != '\n' && l.bytes[l.pos] != 0 {
-			l.pos++
-			l.col++
-		}
-		return l.nextToken() // Comments aren't tokens themselves.
-	case '-':
-		// We lex unary - with the integer if possible.
-		if l.bytes[l.pos] >= '0' && l.bytes[l.pos] <= '9' {
-			return l.consumeInteger(next, pos)
-		}
-		return Token{Type: rune(next), Value: string(next), Pos: pos}
-	case '\t':
-		l.fail(pos, "Tabs are not permitted in BUILD files, use space-based indentation instead")
-	default:
-		l.fail(pos, "Unknown symbol %c", next)
+		panic("unreachable")
 	}
-	panic("unreachable")
 }
 
 // consumeInteger consumes all characters until the end of an integer literal is reached.
